@@ -330,6 +330,31 @@ func evalC10(col *vc.Collector, sc *C10Scn, res c10Result) {
 					continue
 				}
 				if !registered && unregSeq >= 0 && e.Seq > unregSeq && !autoEff {
+					// a completion that merely raced the call has to be undone at once: the connection is closed
+					// within a moment (or the user registers again); one that is still there 700 ms later survived the withdrawal
+					gone := false
+					for _, x := range res.Evs {
+						if x.Seq <= e.Seq || x.Ski != ski || x.Who != "D" {
+							continue
+						}
+						if x.T > e.T+700*time.Millisecond {
+							break
+						}
+						if x.Kind == "disconnected" || x.Kind == "tcp-end" || x.Kind == "api:register" || x.Kind == "api:shutdown" {
+							gone = true
+							break
+						}
+					}
+					var settledAt time.Duration
+					for _, x := range res.Evs {
+						if x.Who == "H" && x.Kind == "settled" {
+							settledAt = x.T
+						}
+					}
+					if !gone && (settledAt == 0 || e.T+700*time.Millisecond < settledAt) {
+						col.Violation(prop, knownSig("connection-survived-withdrawal"), fmt.Sprintf("remote device of target %d set up at %v, after unregister/cancel returned, and the connection is still there 700 ms later (auto-accept off)", ti, e.T), sc.ID, wit)
+						col.Violation("C01", knownSig("hub:connection-survived-withdrawal"), fmt.Sprintf("target %d set up after the user withdrew trust and not closed again", ti), sc.ID, wit)
+					}
 					// tolerate a completion that was racing the unregister call itself
 					var ut time.Duration
 					for _, x := range res.Evs {
